@@ -191,15 +191,26 @@ pub fn float_of(fmt: Fmt, sel: u16, a: u64, b: u64) -> (u64, &'static str) {
     let c = pick_w(sel, &[29, 8, 10, 10, 10, 8, 8, 8, 7, 2]);
     let bits = match c {
         0 => a % inf,
-        1 => a & mmask,
+        1 => {
+            if b % 3 == 0 {
+                subnormal_by_bitlen(fmt, a, b / 3)
+            } else {
+                a & mmask
+            }
+        }
         2 => {
-            let m = match b % 6 {
+            let j = ((b / 9) % mb as u64) as u32; // 0..mbits-1
+            let m = match b % 9 {
                 0 => 0,
                 1 => 1,
                 2 => 2,
                 3 => mmask,
                 4 => mmask - 1,
-                _ => 1u64 << (mb - 1),
+                5 => 1u64 << (mb - 1),
+                // fraction fields 2^j - 1 (low j bits set), 2^j, and all ones above bit j
+                6 => (1u64 << j) - 1 + (j == 0) as u64,
+                7 => 1u64 << j,
+                _ => mmask & !((1u64 << j) - 1),
             };
             ((a % (emax + 1)) << mb) | m
         }
@@ -283,6 +294,26 @@ pub fn float_of(fmt: Fmt, sel: u16, a: u64, b: u64) -> (u64, &'static str) {
         }
     };
     (bits.min(inf - 1), FLOAT_CLASSES[c])
+}
+
+/// Subnormals by *bit length*: `a & mmask` makes almost every subnormal significand full-width, so the interior
+/// powers of two of the subnormal range (where rounding carries into a new bit, far from both the smallest
+/// subnormal and the smallest normal) would never be met.  Bit length j uniform in 1..=mbits; significand
+/// 2^j - 1, 2^(j-1), 2^(j-1) + 1, 2^j - 2 or a random j-bit value.
+pub fn subnormal_by_bitlen(fmt: Fmt, a: u64, b: u64) -> u64 {
+    let mb = fmt.mbits() as u64;
+    let j = 1 + b % mb;
+    let top = 1u64 << (j - 1);
+    let ones = (top << 1) - 1;
+    let v = match (b / mb) % 6 {
+        0 => ones,
+        1 => top,
+        2 => top + 1,
+        3 => ones - 1,
+        4 => ones.saturating_sub(a % 4),
+        _ => top | (a & (top - 1)),
+    };
+    v.clamp(1, (1u64 << mb) - 1)
 }
 
 /// Cross product of edge exponents x edge mantissas (35 patterns): biased exponent in
@@ -915,7 +946,14 @@ pub fn extreme_float(fmt: Fmt, sel: u16, a: u64) -> u64 {
         8 => inf - 1,
         9 => inf - 2,
         10 => inf - 3,
-        11 => a & mmask,                           // random subnormal
+        11 => {
+            // random subnormal: full-width, or by bit length (interior powers of two of the subnormal range)
+            if (a >> 59) % 3 == 0 {
+                subnormal_by_bitlen(fmt, a, a >> 24)
+            } else {
+                a & mmask
+            }
+        }
         12 => (inf - 1) - (a & mmask),             // top binade
         _ => (1u64 << fmt.mbits()) | (a & mmask), // smallest normal binade
     }
@@ -1945,9 +1983,73 @@ pub fn g_s(r: &Recipe) -> Case {
 // ---------------------------------------------------------------------------
 // mixtures
 
+// ---------------------------------------------------------------------------
+// G-I: interior points.  Every boundary-directed family sits at (or within a hair of) a rounding boundary or an
+// exact float, where the extended-precision stage either is undecided or sees an exact product; the INTERIOR of a
+// rounding interval is only met by shaped-random inputs, which never land next to a special float.  Here:
+// x special (float classes, extremes, subnormals by bit length), value (x + num / 2^k) ulp with k in 2..40 -
+// quarter points, 1 - 2^-k, 2^-k, around the middle -, kept exactly or cut to a length the moderate path decides
+// on its own (<= 19 digits) or sees as a truncated prefix (20..50).
+
+pub fn g_i(fmt: Fmt, r: &Recipe, extreme: bool) -> Case {
+    let x = match (extreme, r.sel[6] % 8) {
+        (true, 0..=3) | (false, 0) => subnormal_by_bitlen(fmt, r.a, r.b >> 7),
+        (true, _) => extreme_float(fmt, r.sel[1], r.a),
+        (false, _) => float_of(fmt, r.sel[1], r.a, r.b).0,
+    };
+    let (m, e) = fmt.decode(x);
+    let k = [2u32, 2, 3, 4, 8, 16, 33, 40][(r.k[0] % 8) as usize];
+    let one = 1u128 << k;
+    let num: u128 = match r.k[1] % 6 {
+        0 => 1,
+        1 => one - 1,
+        2 => one / 2 + 1,
+        3 => one / 2 - 1,
+        4 => one / 4 * 3,
+        _ => ((gen_u128(r) % one) | 1).min(one - 1),
+    };
+    let full = oracle::dec_of_scaled(&Nat::from_u128(((m as u128) << k) + num), e - k as i64);
+    let mut d = full.digits.clone();
+    let keep = match r.k[2] % 6 {
+        0 => d.len(),
+        1 => 17,
+        2 => 19,
+        3 => 15 + (r.k[3] % 6) as usize,
+        4 => 20 + (r.k[3] % 31) as usize,
+        _ => 1 + (r.k[3] % 19) as usize,
+    };
+    let variant = if keep >= d.len() {
+        "exact interior point"
+    } else {
+        d.truncate(keep);
+        if (r.k[2] / 6) % 2 == 1 && *d.last().unwrap() != 9 {
+            *d.last_mut().unwrap() += 1;
+        }
+        while let Some(&0) = d.last() {
+            d.pop();
+        }
+        if keep <= 19 {
+            "interior point cut to <= 19 digits"
+        } else {
+            "interior point cut to 20..50 digits"
+        }
+    };
+    if d.is_empty() {
+        d.push(1);
+    }
+    let (int, frac, exp, lay) = layout(&d, full.point, r.sel[4], r.k[3], false);
+    Case { int, frac, exp, family: "G-I interior point", variant, layout: lay, expect: None }
+}
+
+fn gen_u128(r: &Recipe) -> u128 {
+    ((mix(r.a ^ 0x1e) as u128) << 64) | mix(r.b ^ 0x1e) as u128
+}
+
+
 /// The C01/C02 mixture: G-B 35, G-C 20, G-A 15, G-D 7, G-E 10, G-F 6, G-G 7.
 pub fn mixed(fmt: Fmt, r: &Recipe, lim: Limits) -> Case {
-    match pick_w(r.sel[0], &[30, 20, 13, 7, 10, 6, 7, 1, 1, 1, 1, 1, 2]) {
+    match pick_w(r.sel[0], &[30, 20, 13, 7, 10, 6, 7, 1, 1, 1, 1, 1, 2, 3]) {
+        13 => g_i(fmt, r, r.sel[5] % 4 == 0),
         10 => g_r(fmt, r, lim),
         11 => g_t(fmt, r),
         12 => {
